@@ -3,12 +3,32 @@
   (timedelta legs; T = 2^64 ticks/s, M = 10^6 µs/s, Y = 10^24 ys/s)
 -/
 import NiVerif.Proofs.ConvLemmas
+import NiVerif.Model.Mixed
 
 namespace Props.C04
 open Gen.TimeDelta Model.Conv
 
 open Proofs.Conv
 abbrev InI128 (t : Int) : Prop := -(2:Int)^127 ≤ t ∧ t < (2:Int)^127
+
+/-! ### the conversion equations, restated from Proofs/ConvLemmas.lean as property theorems -/
+theorem bt_to_dt_floor (t us : Int) (h : dtOfBt t = .ok us) : 0 ≤ t * M - us * T ∧ t * M - us * T < T :=
+  Proofs.Conv.bt_to_dt_floor t us h
+theorem bt_to_dt_overflow_refused (t : Int) (h : ¬ Py.dtTdInRange (t * M / T)) :
+    dtOfBt t = .error .OverflowError := Proofs.Conv.bt_to_dt_overflow_refused t h
+theorem bt_to_dt_total (t : Int) :
+    dtOfBt t = if Py.dtTdInRange (t * M / T) then .ok (t * M / T) else .error .OverflowError := bt_to_dt t
+theorem dt_to_bt_floor (us t : Int) (h : Py.dtTdInRange us) (ht : btOfDt us = .ok t) :
+    0 ≤ us * T - t * M ∧ us * T - t * M < M := Proofs.Conv.dt_to_bt_floor us t h ht
+theorem dt_to_bt_never_overflows (us : Int) (h : Py.dtTdInRange us) : btOfDt us = .ok (us * T / M) := dt_to_bt us h
+theorem bt_to_ht_floor (t ys : Int) (h : htOfBt t = .ok ys) : 0 ≤ t * Y - ys * T ∧ t * Y - ys * T < T :=
+  Proofs.Conv.bt_to_ht_floor t ys h
+theorem bt_to_ht_total (t : Int) :
+    htOfBt t = if Py.htTdInRange (t * Y / T) then .ok (t * Y / T) else .error .OverflowError := bt_to_ht t
+theorem ht_to_bt_nearest (ys : Int) :
+    2 * (btTicksOfHt ys * Y - ys * T) ≤ Y ∧ -Y ≤ 2 * (btTicksOfHt ys * Y - ys * T) := Proofs.Conv.ht_to_bt_nearest ys
+theorem ht_to_bt_never_overflows (ys : Int) (h : Py.htTdInRange ys) : btOfHt ys = .ok (btTicksOfHt ys) :=
+  ht_to_bt_in_range ys h
 
 /-! ### round trips -/
 
@@ -103,6 +123,87 @@ theorem ht_to_bt_monotone (a b : Int) (h : a ≤ b) : btTicksOfHt a ≤ btTicksO
 
 /-- TimeDelta(int seconds) is exact -/
 theorem td_of_int_exact (s : Int) : to_ticks_int s = s * T := by py_norm
+
+/-! ### absolute times (datetime.datetime = µs, hightime.datetime = ys since 0001-01-01Z, UTC) -/
+section Abs
+open Model.Mixed
+
+/-- bintime.DateTime → datetime.datetime: rounded down by less than 1 µs, OverflowError outside years 1..9999 -/
+theorem btdt_to_dt_floor (t p : Int) (h : dtOfBtDt t = .ok p) :
+    0 ≤ (t * M + DT_EPOCH * T) - p * T ∧ (t * M + DT_EPOCH * T) - p * T < T ∧ dtAbsInRange p := by
+  unfold dtOfBtDt at h
+  obtain ⟨u, hu, h⟩ := (show ∃ u, dtOfBt t = .ok u ∧ _ from by
+    cases hd : dtOfBt t with
+    | error e => rw [hd] at h; cases h
+    | ok u => rw [hd] at h; exact ⟨u, rfl, h⟩)
+  have hf := Proofs.Conv.bt_to_dt_floor t u hu
+  simp only [Proofs.bind_ok] at h
+  split at h
+  · rename_i hr; injection h with h; subst h
+    refine ⟨?_, ?_, hr⟩ <;> (unfold T M DT_EPOCH EPOCH_DAYS at *; omega)
+  · cases h
+
+/-- datetime.datetime (UTC) → bintime.DateTime: rounded down by less than one tick, always representable -/
+theorem dt_to_btdt_floor (p : Int) (h : dtAbsInRange p) :
+    ∃ t, btDtOfDt p = .ok t ∧ 0 ≤ (p - DT_EPOCH) * T - t * M ∧ (p - DT_EPOCH) * T - t * M < M := by
+  unfold dtAbsInRange MAX_ORDINAL at h
+  have hr : Py.dtTdInRange (p - DT_EPOCH) := by
+    unfold Py.dtTdInRange Py.MAX_DAYS Py.US_PER_DAY DT_EPOCH EPOCH_DAYS; omega
+  refine ⟨_, dt_to_bt _ hr, ?_, ?_⟩ <;> (unfold T M; omega)
+
+theorem btdt_to_ht_floor (t q : Int) (h : htOfBtDt t = .ok q) :
+    0 ≤ (t * Y + HT_EPOCH * T) - q * T ∧ (t * Y + HT_EPOCH * T) - q * T < T ∧ htAbsInRange q := by
+  unfold htOfBtDt at h
+  obtain ⟨y, hy, h⟩ := (show ∃ y, htOfBt t = .ok y ∧ _ from by
+    cases hd : htOfBt t with
+    | error e => rw [hd] at h; cases h
+    | ok y => rw [hd] at h; exact ⟨y, rfl, h⟩)
+  have hf := Proofs.Conv.bt_to_ht_floor t y hy
+  simp only [Proofs.bind_ok] at h
+  split at h
+  · rename_i hr; injection h with h; subst h
+    refine ⟨?_, ?_, hr⟩ <;> (unfold T Y HT_EPOCH EPOCH_DAYS at *; omega)
+  · cases h
+
+theorem ht_to_btdt_nearest (q : Int) (h : htAbsInRange q) :
+    ∃ t, btDtOfHt q = .ok t ∧ 2 * (t * Y - (q - HT_EPOCH) * T) ≤ Y ∧ -Y ≤ 2 * (t * Y - (q - HT_EPOCH) * T) := by
+  unfold htAbsInRange MAX_ORDINAL at h
+  have hr : Py.htTdInRange (q - HT_EPOCH) := by
+    unfold Py.htTdInRange Py.MAX_DAYS Py.YS_PER_DAY HT_EPOCH EPOCH_DAYS; omega
+  exact ⟨_, ht_to_bt_in_range _ hr, Proofs.Conv.ht_to_bt_nearest _⟩
+
+/-- bintime → hightime → bintime is the identity on absolute times -/
+theorem btdt_ht_btdt (t q : Int) (h : htOfBtDt t = .ok q) : btDtOfHt q = .ok t := by
+  unfold htOfBtDt at h
+  cases hd : htOfBt t with
+  | error e => rw [hd] at h; cases h
+  | ok y =>
+    rw [hd] at h; simp only [Proofs.bind_ok] at h
+    split at h
+    · injection h with h; subst h
+      have hb := bt_ht_bt t y hd
+      have hy : Py.htTdInRange y := by
+        rw [bt_to_ht] at hd; split at hd
+        · rename_i hr; injection hd with hd; subst hd; exact hr
+        · cases hd
+      unfold btDtOfHt
+      have e : HT_EPOCH + y - HT_EPOCH = y := by omega
+      rw [e, ht_to_bt_in_range y hy, hb]
+    · cases h
+
+/-- datetime → hightime → datetime is the identity; hightime → datetime truncates below 1 µs -/
+theorem dt_ht_dt_abs (p : Int) : dtAbsOfHt (htAbsOfDt p) = p := by unfold dtAbsOfHt htAbsOfDt; omega
+theorem ht_to_dt_abs_trunc (q : Int) :
+    0 ≤ q - dtAbsOfHt q * 1000000000000000000 ∧ q - dtAbsOfHt q * 1000000000000000000 < 1000000000000000000 := by
+  unfold dtAbsOfHt; omega
+theorem ht_to_dt_abs_in_range (q : Int) (h : htAbsInRange q) : dtAbsInRange (dtAbsOfHt q) := by
+  unfold htAbsInRange dtAbsInRange MAX_ORDINAL dtAbsOfHt at *; omega
+
+/-- naive and non-UTC input to bintime is refused; UTC input is converted -/
+theorem tz_rules (r : Except PyErr Int) :
+    toOffsetChecked false r = .error .ValueError ∧ toOffsetChecked true r = r := ⟨rfl, rfl⟩
+
+end Abs
 
 -- non-vacuity
 example : Py.dtTdInRange 86400000001 ∧ Py.htTdInRange (-5) ∧ InI128 (T + 1) := by
